@@ -2,21 +2,24 @@
 (* GEN: TLC enumerates (shape, mutation) cases of SigV4.tla and prints them as JSON; the *)
 (* harness (harness/cmd/sigv4) executes them on the real middleware.                     *)
 (*   Mode = "shapes": every shape, unmutated (C29).                                      *)
-(*   Mode = "cases" : the payload-mode shapes and a 1/ShapeK sample of the other shapes, *)
-(*                    each with its whole mutation catalogue; every unmutated case and   *)
-(*                    a 1/SampleK sample of the mutated ones are printed (C28).          *)
+(*   Mode = "cases" : the payload-mode shapes with their whole mutation catalogue, and   *)
+(*                    every ShapeK-th other shape with every SampleK-th of its mutations *)
+(*                    (strides over TLC's value order, phase chosen by Offset = seed),   *)
+(*                    plus the unmutated case of every selected shape (C28).             *)
 (* Wire / Verdict are not evaluated here (the design check is SigV4.MC.cfg).             *)
 EXTENDS SigV4, Json
-CONSTANTS Mode, ShapeK, SampleK
-Pick(k) == k = 1 \/ RandomElement(1..k) = 1
-GInit == /\ s \in (IF Mode = "shapes" THEN Shapes
-                   ELSE PayloadShapes \cup {x \in Shapes \ PayloadShapes : Pick(ShapeK)})
-         /\ m = NoMut /\ w0 = <<>> /\ w = <<>> /\ v = <<>>
+CONSTANTS Mode, ShapeK, SampleK, Offset
+SE == INSTANCE SequencesExt
+Stride(S, k, off) == Let1(SE!SetToSeq(S), LAMBDA q : {q[i] : i \in {j \in 1..Len(q) : (j + off) % k = 0}})
+ShapeHash(x) == Len(x.key) + 3 * Len(x.query) + 5 * Len(x.meta) + 7 * Len(x.ctype) + (IF x.auth = "presign" THEN 1 ELSE 0)
+SelectedShapes == IF Mode = "shapes" THEN Shapes
+                  ELSE PayloadShapes \cup Stride(Shapes \ PayloadShapes, ShapeK, Offset)
+SelectedMuts(x) == IF x \in PayloadShapes THEN Muts(x) \ {NoMut}
+                   ELSE Stride(Muts(x) \ {NoMut}, SampleK, Offset + ShapeHash(x))
+GInit == s \in SelectedShapes /\ m = NoMut /\ w0 = <<>> /\ w = <<>> /\ v = <<>>
 GNext == /\ Mode = "cases"
          /\ m = NoMut
-         /\ m' \in Muts(s) \ {NoMut}
+         /\ m' \in SelectedMuts(s)
          /\ UNCHANGED <<s, w0, w, v>>
-Emit == IF m = NoMut \/ s \in PayloadShapes \/ Pick(SampleK)
-        THEN PrintT(ToJson([s |-> s, m |-> m]))
-        ELSE TRUE
+Emit == PrintT(ToJson([s |-> s, m |-> m]))
 =============================================================================
